@@ -77,17 +77,19 @@ func (pass *PrefixObjectNames) processStruct(visitor *Visitor, schema *ast.Schem
 	}
 
 	// hints can be set by users: the value isn't necessarily a disjunction
-	if disjunction, ok := structDef.Hints[ast.HintDiscriminatedDisjunctionOfRefs].(ast.DisjunctionType); ok {
-		disjunction.DiscriminatorMapping = pass.processDisjunctionMapping(schema, disjunction)
-		// the branches kept in the hint are not those of the fields
-		for i, branch := range disjunction.Branches {
-			disjunction.Branches[i], err = visitor.VisitType(schema, branch)
-			if err != nil {
-				return ast.Type{}, err
+	for _, hint := range disjunctionHints {
+		if disjunction, ok := structDef.Hints[hint].(ast.DisjunctionType); ok {
+			disjunction.DiscriminatorMapping = pass.processDisjunctionMapping(schema, disjunction)
+			// the branches kept in the hint are not those of the fields
+			for i, branch := range disjunction.Branches {
+				disjunction.Branches[i], err = visitor.VisitType(schema, branch)
+				if err != nil {
+					return ast.Type{}, err
+				}
 			}
+			structDef.Hints[hint] = disjunction
+			structDef.AddToPassesTrail(fmt.Sprintf("PrefixObjectNames[prefix=%s]", pass.Prefix))
 		}
-		structDef.Hints[ast.HintDiscriminatedDisjunctionOfRefs] = disjunction
-		structDef.AddToPassesTrail(fmt.Sprintf("PrefixObjectNames[prefix=%s]", pass.Prefix))
 	}
 
 	return structDef, nil
